@@ -170,7 +170,7 @@ func nameKeyedSetOverInline(w *World, r *Report, prop string, inScope func(fn *s
 			// keyed by the type whose methods keep the set and by the set, not by the function (a renamed or split emitter is the same set)
 			owner := recvNamedCore(fn)
 			if owner == "" {
-				owner = fn.Pkg.Pkg.Name()
+				owner = ownerPkgName(fn)
 			}
 			key := fmt.Sprintf("%s: a set keyed by a packet's name sees declared packets only", owner)
 			if seenKey[key] {
@@ -1271,7 +1271,7 @@ func matchTableReadFromTheField(w *World, r *Report, prop string, inScope func(f
 		})
 		owner := recvNamedCore(fn)
 		if owner == "" {
-			owner = fn.Pkg.Pkg.Name()
+			owner = ownerPkgName(fn)
 		}
 		key := owner + ": the pairs of a match field are not taken from the per-key index Packet.MatchFields"
 		if at == nil {
@@ -1287,4 +1287,11 @@ func matchTableReadFromTheField(w *World, r *Report, prop string, inScope func(f
 	if n == 0 {
 		r.pass(rule, "no routine takes a pair list out of the per-key index", "", "")
 	}
+}
+
+func ownerPkgName(fn *ssa.Function) string {
+	if p := pkgOfFunc(fn); p != nil && p.Pkg != nil {
+		return p.Pkg.Name()
+	}
+	return "repo"
 }
